@@ -67,6 +67,7 @@ DRIVER = 'Drive/C10.lean'
 QH = Fraction(3, 2)
 FLOOR = 1e-7
 NETS = []          # filled in the parent before the worker pool forks
+ROTS = {}          # network name -> rotation matrix of a rigidly rotated copy (x_here = Rot x_orig)
 _GF = {}           # per-process calculator cache
 
 
@@ -128,6 +129,17 @@ def redescribe(crys, M):
     Mi = np.round(np.linalg.inv(M)).astype(int)
     basis = [[(Mi @ u) % 1.0 for u in b] for b in crys.basis]
     return crystal.Crystal(crys.lattice @ M, basis, chemistry=crys.chemistry, noreduce=True)
+
+
+def _rotation(rng, dim):
+    """proper rotation with generic angles (no axis stays aligned)"""
+    if dim == 2:
+        a = rng.uniform(0.3, 1.2)
+        return np.array([[math.cos(a), -math.sin(a)], [math.sin(a), math.cos(a)]])
+    a, b, c = rng.uniform(0.3, 1.2), rng.uniform(0.4, 1.1), rng.uniform(0.3, 1.2)
+    Rz = lambda t: np.array([[math.cos(t), -math.sin(t), 0.], [math.sin(t), math.cos(t), 0.], [0., 0., 1.]])
+    Ry = np.array([[math.cos(b), 0., math.sin(b)], [0., 1., 0.], [-math.sin(b), 0., math.cos(b)]])
+    return Rz(a) @ Ry @ Rz(c)
 
 
 def _unimodular(rng, dim, n):
@@ -207,6 +219,24 @@ def build_networks(ctx):
             det = int(round(np.linalg.det(M)))
             out.append(('redesc:%s:%s' % (nm, ''.join(str(int(x)) for x in M.flatten()).replace('-', 'm')), c2, chem, sl2, jn2,
                         {'orig=%d' % idx0, 'det=%+d' % det, 'M=' + str(M.tolist()), 'cutoff=%g' % cutoffs[nm], 'noreduce'}))
+    # rigidly rotated copies (generic Euler angles): only the Cartesian frame changes
+    rot_cheap = ['vac:fcc', 'vac:sc', 'vac:hcp', 'int:hcp-self', 'vac:rumpled', 'int:fcc-oct+tet', 'vac:bcc', 'int:square2d-int',
+                 'vac:tri2d', 'int:oblique2d-2site', 'int:fcc-oct', 'int:sc-xxx']
+    chosen = ctx.rng.sample([n for n in rot_cheap if out[base.index(n)][1].dim == 3], 2) + ctx.rng.sample(rot_cheap, 1) if ctx.quick else base
+    for nm in dict.fromkeys(chosen):
+        idx0 = base.index(nm)
+        _, crys, chem, sl, jn, _t = out[idx0]
+        Rot = _rotation(ctx.rng, crys.dim)
+        try:
+            c2 = crystal.Crystal(Rot @ crys.lattice, crys.basis, chemistry=crys.chemistry, noreduce=True)
+            jn2 = c2.jumpnetwork(chem, cutoffs[nm]); sl2 = c2.sitelist(chem)
+        except Exception as e:
+            ctx.note('rotated copy of %s not built: %r' % (nm, e)); continue
+        if sorted(len(c) for c in jn2) != sorted(len(c) for c in jn) or len(sl2) != len(sl) or len(c2.G) != len(crys.G):
+            ctx.note('rotated copy of %s has a different group/jump network (%d vs %d operations); skipped' % (nm, len(c2.G), len(crys.G))); continue
+        rname = 'rot:%s' % nm
+        ROTS[rname] = Rot
+        out.append((rname, c2, chem, sl2, jn2, {'orig=%d' % idx0, 'rotation=' + str(np.round(Rot, 6).tolist()), 'cutoff=%g' % cutoffs[nm], 'noreduce'}))
     # random low-symmetry crystals
     nrand = 2 if ctx.quick else 40
     tries = 0
@@ -606,6 +636,10 @@ def work(task):
                 oname, ocrys, ochem, osl, ojn, _ot = NETS[orig[0]]
                 gfo4, gfo6 = _calc(orig[0], 4), _calc(orig[0], 6)
                 oinv = [int(w) for w in gfo4.invmap]
+                Rot = ROTS.get(name)
+
+                def back(v):
+                    return v if Rot is None else Rot.T @ v
 
                 def find_site(xc, ch):
                     for io in range(len(ocrys.basis[ch])):
@@ -615,9 +649,9 @@ def work(task):
                 # the constructor may re-centre the basis: the two descriptions agree up to one global translation
                 smap = None
                 for io in range(N):
-                    t = crys.lattice @ crys.basis[chem][0] - ocrys.lattice @ ocrys.basis[ochem][io]
-                    if all(find_site(crys.lattice @ u - t, ch) is not None for ch in range(len(crys.basis)) for u in crys.basis[ch]):
-                        smap = [find_site(crys.lattice @ crys.basis[chem][i] - t, chem) for i in range(N)]
+                    t = back(crys.lattice @ crys.basis[chem][0]) - ocrys.lattice @ ocrys.basis[ochem][io]
+                    if all(find_site(back(crys.lattice @ u) - t, ch) is not None for ch in range(len(crys.basis)) for u in crys.basis[ch]):
+                        smap = [find_site(back(crys.lattice @ crys.basis[chem][i]) - t, chem) for i in range(N)]
                         break
                 if smap is None or sorted(smap) != list(range(N)): raise StopIteration
                 wmap = {}
@@ -625,30 +659,65 @@ def work(task):
                 kmap = []
                 for ocl in ojn:
                     (io, jo), odx = ocl[0]
-                    kmap.append(next(k for k, cl in enumerate(jn) if any(smap[a] == io and smap[b] == jo and np.abs(dx - odx).max() < 1e-6
+                    kmap.append(next(k for k, cl in enumerate(jn) if any(smap[a] == io and smap[b] == jo and np.abs(back(dx) - odx).max() < 1e-6
                                                                          for (a, b), dx in cl)))
                 oargs = ([args[0][wmap[w]] for w in range(len(osl))], [args[1][wmap[w]] for w in range(len(osl))],
                          [args[2][k] for k in kmap], [args[3][k] for k in kmap])
                 gfo4.SetRates(*oargs); gfo6.SetRates(*oargs)
+                worst_dev = 0.0
+                # BZ accuracy of either description as a uniform bound over the sampled patch (a pointwise |G4-G6| can be
+                # accidentally small where the error changes sign; the two descriptions use different k-meshes)
+                acc_here = max(abs(G4[kk] - G6[kk]) for kk in keys)
+                samples = []
                 for key in rng.sample(keys, min(len(keys), 10)):
                     k, j, z = key
                     x = zcart(z)
-                    a4, a6 = call(gfo4, smap[k], smap[j], x, 4), call(gfo6, smap[k], smap[j], x, 6)
+                    a4, a6 = call(gfo4, smap[k], smap[j], back(x), 4), call(gfo6, smap[k], smap[j], back(x), 6)
                     if a4 is None or a6 is None: continue
-                    tol = 5 * abs(G4[key] - G6[key]) + 5 * abs(a4 - a6) + FLOOR * gscale
-                    d_here, d_orig = G4[key], a4
                     if dim == 2:
                         key0 = next(kk for kk in keys if kk[0] == k and kk[1] == j)
-                        b4, b6 = call(gfo4, smap[k], smap[j], zcart(key0[2]), 4), call(gfo6, smap[k], smap[j], zcart(key0[2]), 6)
+                        b4, b6 = call(gfo4, smap[k], smap[j], back(zcart(key0[2])), 4), call(gfo6, smap[k], smap[j], back(zcart(key0[2])), 6)
                         if b4 is None or b6 is None: continue
-                        d_here, d_orig = G4[key] - G4[key0], a4 - b4
-                        tol += 5 * abs(G4[key0] - G6[key0]) + 5 * abs(b4 - b6)
+                        samples.append((key, x, G4[key] - G4[key0], a4 - b4, max(abs(a4 - a6), abs(b4 - b6)), 2))
+                    else:
+                        samples.append((key, x, G4[key], a4, abs(a4 - a6), 1))
+                acc_orig = max([sm[4] for sm in samples] + [0.0])
+                for key, x, d_here, d_orig, _a, mult in samples:
+                    k, j, z = key
+                    tol = mult * 5 * (acc_here + acc_orig) + FLOOR * gscale
                     rec['cases'].append((('redescription', name, kind, key), True))
                     count('redescription-compared')
                     if not abs(d_here - d_orig) <= tol:
                         viol('redescription:%s' % rtag, 'G(%d,%d,dx)=%.10g on %s but %.10g for the same sites, separation and rates in the original description %s (%s)'
                              % (k, j, d_here, name, d_orig, oname, 'differences' if dim == 2 else 'values'),
                              dict(rep0, i=k, j=j, dx=x.tolist(), here=d_here, original=d_orig, tol=tol, original_network=oname))
+                    else:
+                        worst_dev = max(worst_dev, abs(d_here - d_orig))
+                if Rot is not None:
+                    # A rigid rotation changes nothing but the Cartesian frame.  (i) When both descriptions use the same
+                    # (rotated) k-mesh the values agree to rounding in the clean code: anything above is a disagreement.
+                    if gf4.Nkpt == gfo4.Nkpt and worst_dev > 1e-10 * gscale:
+                        rec['disagree'].append(('G of the rigidly rotated copy %s deviates from the original orientation by %.3g (|G| up to %.3g) with the same k-mesh: '
+                                                'the Green function depends on the orientation of the Cartesian axes' % (name, worst_dev, gscale),
+                                                dict(rep0, deviation=worst_dev, rotation=Rot.tolist()), 'tie:rotation-rounding'))
+                    # (ii) The accuracy with which the lattice equation is solved cannot depend on the orientation: the residuals
+                    # of the rotated copy are compared with those of the original description at the same points.
+                    osym, oesc = float_rates(oinv, ojn, oargs)
+                    ref, mine = 0.0, []
+                    for (i, j, R, z, r1, tol1) in np_res[:6]:
+                        io, jo, xo = smap[i], smap[j], back(zcart(z))
+                        vals = [call(gfo4, io, jo, xo, 4)] + [call(gfo4, b, jo, xo - odx, 4) for cl in ojn for (a, b), odx in cl if a == io]
+                        if any(v is None for v in vals): continue
+                        wts = [oesc[io]] + [osym[c] for c, cl in enumerate(ojn) for (a, b), odx in cl if a == io]
+                        ro = sum(w_ * v for w_, v in zip(wts, vals)) - (1.0 if i == j and not any(R) else 0.0)
+                        ref = max(ref, abs(ro)); mine.append((i, j, R, r1))
+                    for (i, j, R, r1) in mine:
+                        rec['cases'].append((('resid-orientation', name, kind, str(datarep)[:80], i, j, tuple(R)), True))
+                        count('resid-orientation')
+                        if not abs(r1) <= 10 * ref + FLOOR:
+                            viol('residual-orientation:%s' % rtag, 'lattice equation residual %.3g at G(%d,%d,R=%s) on the rigidly rotated copy %s, but at most %.3g at the same points '
+                                 'in the original orientation %s (same crystal, rates and mesh density)' % (r1, i, j, R, name, ref, oname),
+                                 dict(rep0, point=[i, j, R], residual=r1, worst_residual_original=ref, rotation=Rot.tolist(), original_network=oname))
             except StopIteration:
                 rec['notes'].append('%s: sites/jumps could not be matched to the original description; comparison skipped' % name)
             except Exception as e:
@@ -787,8 +856,8 @@ def run(ctx):
         core = ['int:fcc-oct+tet', 'int:hcp-oct+tet', 'int:zincblende-int', 'int:square2d-int', 'int:oblique2d-2site',
                 'vac:rumpled', 'disc:sc-x00-self', 'disc:fcc-oo+tt', 'disc:sq2d-oo+ee', 'lowsym:p1-2site', 'aniso:zigzag2d']
         rest = [n for n in names if n not in core and not n.startswith('rand:')]
-        rest = [n for n in rest if not n.startswith('redesc:')]
-        pick = core + ctx.rng.sample(rest, 3) + [n for n in names if n.startswith('rand:') or n.startswith('redesc:')]
+        rest = [n for n in rest if not n.startswith('redesc:') and not n.startswith('rot:')]
+        pick = core + ctx.rng.sample(rest, 3) + [n for n in names if n.startswith('rand:') or n.startswith('redesc:') or n.startswith('rot:')]
         tasks = [(names.index(n), ctx.rng.getrandbits(32), 1, 1, 3, 8, False) for n in pick]
     else:
         tasks = []
